@@ -234,7 +234,8 @@ class Check:
             real.append(Violation("broken obligation: " + ", ".join(n for n, _ in broken), rp,
                                   no_input=True))
         lines = []
-        for v in real:
+        n_real = len(real)
+        for v in real[:20]:
             h = hashlib.sha1(json.dumps(v.replay, sort_keys=True, default=str).encode()).hexdigest()[:10]
             path = os.path.join(evdir, "replay", f"{self.pid}-{h}.json")
             with open(path, "w") as f:
@@ -261,7 +262,7 @@ class Check:
         ev = {
             "property_id": self.pid, "tier": self.tier, "seed": self.seed, "level": "proof",
             "coverage": cov, "assumptions": self.notes, "wall_s": round(time.time() - self.t0, 2),
-            "violations": len(real),
+            "violations": n_real,
             "known_findings_hit": [m["what"] for m, _ in self.known],
         }
         with open(os.path.join(evdir, f"{self.pid}.json"), "w") as f:
@@ -269,7 +270,7 @@ class Check:
         for ln in lines[:20]:
             print(ln, flush=True)
         print(f"[{self.pid}] tier={self.tier} obligations={n_ok}/{n_obl} evaluations={cov['evaluations']} "
-              f"distinct={cov['distinct_nontrivial']} violations={len(real)} known={len(self.known)} "
+              f"distinct={cov['distinct_nontrivial']} violations={n_real} known={len(self.known)} "
               f"wall={ev['wall_s']}s", flush=True)
         return 1 if real else 0
 
